@@ -84,6 +84,15 @@ static const char *find_label_at(const DisasmLabel *labels, uint32_t count, uint
  * Operand Formatting
  * ======================================================================== */
 
+/* Annotation text goes into a comment: it must stay on its line */
+static void print_annotation(FILE *out, const char *str) {
+    for (const char *c = str; *c; c++) {
+        if (*c == '\n') fputs("\\n", out);
+        else if (*c == '\r') fputs("\\r", out);
+        else fputc(*c, out);
+    }
+}
+
 static void format_operand(FILE *out, const DecodedInstruction *instr, int idx,
                             const NvmModule *mod, uint32_t instr_offset,
                             const DisasmLabel *labels, uint32_t label_count) {
@@ -103,11 +112,7 @@ static void format_operand(FILE *out, const DecodedInstruction *instr, int idx,
                     /* annotation only: keep it on one line (a raw newline would
                      * end the comment and the rest would be parsed as code) */
                     fprintf(out, "  ; \"");
-                    for (const char *c = str; *c; c++) {
-                        if (*c == '\n') fputs("\\n", out);
-                        else if (*c == '\r') fputs("\\r", out);
-                        else fputc(*c, out);
-                    }
+                    print_annotation(out, str);
                     fprintf(out, "\"");
                     return;
                 }
@@ -119,7 +124,8 @@ static void format_operand(FILE *out, const DecodedInstruction *instr, int idx,
                     const char *name = nvm_get_string(mod, mod->functions[fn_idx].name_idx);
                     if (name) {
                         fprintf(out, " %u", fn_idx);
-                        fprintf(out, "  ; %s", name);
+                        fprintf(out, "  ; ");
+                        print_annotation(out, name);
                         return;
                     }
                 }
@@ -197,23 +203,38 @@ void disasm_function(const uint8_t *code, uint32_t code_size,
  * Module Disassembly
  * ======================================================================== */
 
+static void print_quoted_string(FILE *out, const char *s, uint32_t length) {
+    fputc('"', out);
+    /* Escape special characters (the pool stores lengths: a string may contain NUL) */
+    for (uint32_t k = 0; k < length; k++) {
+        switch (s[k]) {
+            case '\n': fprintf(out, "\\n"); break;
+            case '\t': fprintf(out, "\\t"); break;
+            case '\\': fprintf(out, "\\\\"); break;
+            case '"':  fprintf(out, "\\\""); break;
+            case '\0': fprintf(out, "\\0"); break;
+            default:   fputc(s[k], out); break;
+        }
+    }
+    fputc('"', out);
+}
+
+static bool is_identifier(const char *s, uint32_t length) {
+    for (uint32_t k = 0; k < length; k++) {
+        if (!((s[k] >= 'A' && s[k] <= 'Z') || (s[k] >= 'a' && s[k] <= 'z') ||
+              (s[k] >= '0' && s[k] <= '9') || s[k] == '_')) return false;
+    }
+    return length > 0;
+}
+
 void disasm_module_to_file(const NvmModule *mod, FILE *out) {
     /* String pool */
     for (uint32_t i = 0; i < mod->string_count; i++) {
         const char *s = nvm_get_string(mod, i);
         if (s) {
-            fprintf(out, ".string \"");
-            /* Escape special characters */
-            for (const char *p = s; *p; p++) {
-                switch (*p) {
-                    case '\n': fprintf(out, "\\n"); break;
-                    case '\t': fprintf(out, "\\t"); break;
-                    case '\\': fprintf(out, "\\\\"); break;
-                    case '"':  fprintf(out, "\\\""); break;
-                    default:   fputc(*p, out); break;
-                }
-            }
-            fprintf(out, "\"\n");
+            fprintf(out, ".string ");
+            print_quoted_string(out, s, mod->string_lengths[i]);
+            fprintf(out, "\n");
         }
     }
     if (mod->string_count > 0) {
@@ -230,8 +251,14 @@ void disasm_module_to_file(const NvmModule *mod, FILE *out) {
         const NvmFunctionEntry *fn = &mod->functions[i];
         const char *name = nvm_get_string(mod, fn->name_idx);
 
-        fprintf(out, ".function %s %u %u %u\n",
-                name ? name : "???",
+        /* Any pool string can be a name: quote what is not an identifier */
+        fprintf(out, ".function ");
+        if (name && !is_identifier(name, mod->string_lengths[fn->name_idx])) {
+            print_quoted_string(out, name, mod->string_lengths[fn->name_idx]);
+        } else {
+            fprintf(out, "%s", name ? name : "???");
+        }
+        fprintf(out, " %u %u %u\n",
                 fn->arity, fn->local_count, fn->upvalue_count);
 
         if (fn->code_length > 0 && fn->code_offset + fn->code_length <= mod->code_size) {
